@@ -43,6 +43,7 @@ def _neq_guards(func):
                 t, neg = t.operand, True
             if isinstance(t, ast.Compare) and len(t.ops) == 1 and len(t.comparators) == 1:
                 if (isinstance(t.ops[0], ast.NotEq) and not neg) or (isinstance(t.ops[0], ast.Eq) and neg):
+                    n._conjuncts = len(tests)
                     out.append((t.left, t.comparators[0], n))
     return out
 
@@ -93,7 +94,7 @@ def section(ctx):
         for left, right, ifn in _neq_guards(dl):
             for a, b in ((left, right), (right, left)):
                 h = _hash_arg(a)
-                if h is not None and ast.unparse(b) == dname and h in src_vars and _raises(ifn.body):
+                if h is not None and ast.unparse(b) == dname and h in src_vars and _raises(ifn.body) and ifn._conjuncts == 1:
                     chunk_verified = True
         # decrypt key = derive_shared_subkey(<digest param>)
         decs = _calls(dl, '.decrypt')
@@ -251,8 +252,9 @@ def section(ctx):
         dvals = [ast.unparse(v) for v in asg.get('digest', [])]
         for left, right, ifn in _neq_guards(ld):
             pair = {ast.unparse(left), ast.unparse(right)}
+            conj = [ast.unparse(v) for v in ifn.test.values] if isinstance(ifn.test, ast.BoolOp) and isinstance(ifn.test.op, ast.And) else []
             if pair == {'self.props.mac(digest)', 'bytes.fromhex(tag)'} and _returns_none(ifn.body) \
-                    and 'self.props.encrypted' in ast.unparse(ifn.test):
+                    and len(conj) == 2 and 'self.props.encrypted' in conj:
                 tag_checked = True
         rets = [n.value for n in ast.walk(ld) if isinstance(n, ast.Return) and n.value is not None]
         name_expected = dvals == ['bytes.fromhex(name)'] and any(
@@ -290,7 +292,7 @@ def section(ctx):
                         continue
                     for a, b in ((left, right), (right, left)):
                         h = _hash_arg(a)
-                        if h == var and ast.unparse(b) == exp and _raises(ifn.body) and dec_args == [h]:
+                        if h == var and ast.unparse(b) == exp and _raises(ifn.body) and dec_args == [h] and ifn._conjuncts == 1:
                             snap_verified = True
         if not snap_verified:
             notes['load.digest'] = 'no `if hash_digest(<downloaded contents>) != <expected digest>: raise` guarding what is decrypted'
